@@ -636,13 +636,7 @@ func (gw *GlobalWindow) getKeyAndValues(data map[string]any) (string, map[string
 			}
 		}
 		values[k] = val
-		if val == nil {
-			parts = append(parts, "")
-		} else if s, ok := val.(string); ok {
-			parts = append(parts, s)
-		} else {
-			parts = append(parts, fmt.Sprintf("%v", val))
-		}
+		parts = append(parts, cast.KeyPart(val, '|'))
 	}
 	return strings.Join(parts, "|"), values
 }
